@@ -40,6 +40,9 @@ UNIV_THOROUGH = UNIV_QUICK + [
   FAB(2, 3, 1, A_START=0, A_STARTFIX=1, B_START=0, B_STARTFIX=1, B_FIN=4),           # 6+10: one letter, B three states with start {0}, only state 2 may be final
   FAB(1, 2, 3, A_START=0, A_STARTFIX=1, A_FIN=0, A_FINFIX=1, B_START=0, B_STARTFIX=1, B_FIN=0, B_FINFIX=3),   # 3+12: three letters
   FAB(1, 3, 2, A_START=0, A_STARTFIX=1, A_FIN=0, A_FINFIX=1, B_START=0, B_STARTFIX=1, B_FIN=0, B_FINFIX=7),   # 2+18 = 20 bits: all 18 edges of a three-state B, everything final (heavy)
+  FAB(2, 2, 2, A_START=0, A_STARTFIX=1, B_START=0, B_STARTFIX=1, B_FIN=0, B_FINFIX=3),              # 10+8 = 18 bits: all 16 edges, A finals free; starts {0}; B all final
+  FAB(2, 2, 2, A_START=0, A_STARTFIX=1, A_FIN=0, A_FINFIX=2, B_START=0, B_STARTFIX=1),              # 8+10 = 18 bits: all 16 edges, B finals free; starts {0}; A final {1}
+  FAB(3, 2, 1, A_START=0, A_STARTFIX=1, B_START=0, B_STARTFIX=1),                                   # 12+6 = 18 bits: 3+2 states, one letter, starts {0}, finals free
   FAB(1, 2, 2, PREP=0), FAB(2, 1, 2, PREP=0), FAB(2, 2, 1, PREP=0),                  # direct library call on operands with disjoint numbers (no CLI sanitisation)
 ]
 def c09_configs(univ, sels=(0, 1, 2)):
@@ -50,7 +53,7 @@ CHECKS = {
   'level': 'model_checking',
   'explanation': 'ExplicitFiniteAut::CheckInclusion executed symbolically for each implemented algorithm selection without simulation (antichains; congruence depth-first; congruence breadth-first), operands prepared as cli/operations.hh does (two automata numbered from 0, AutBase::SanitizeAutsForInclusion, then the library call which sanitises again and, for congruence, builds the disjoint union), on every pair of NFAs of the universe of the configuration (presence bit per edge, start bit and final bit per state); the verdict is compared with an independent subset-construction oracle (all reachable pairs of an A state and a B macro-state). One query per (universe, selection); since every selection equals the same oracle on the same universes they agree; two queries additionally run all three selections on the same pair and compare them directly.',
   'bounds': {'quick': 'pairs (A,B) of NFAs with |Q_A|+|Q_B| <= 4 states over <= 3 letters: 1+2 and 2+1 states x 2 letters, 2+2 x 1 letter, 1+1 x 3 letters (all edges, start and final bits free, 10..16 bits), two 16-bit sub-universes of 2+2 states x 2 letters, 1+3 states x 1 letter and a 16-bit sub-universe of 1+3 states x 2 letters; 3 selections each',
-             'thorough': 'as quick plus 3+1 x 1 letter, three more 16-bit sub-universes of 2+2 x 2 letters (several start states on either side), 2+3 x 1 letter, 1+2 x 3 letters, a 20-bit universe 1+3 x 2 letters, and the direct library call (no CLI sanitisation, disjoint state numbers) on three universes'},
+             'thorough': 'as quick plus 3+1 x 1 letter, three more 16-bit sub-universes of 2+2 x 2 letters (several start states on either side), 2+3 and 3+2 x 1 letter, 1+2 x 3 letters, two 18-bit universes 2+2 x 2 letters (all 16 edges free), a 20-bit universe 1+3 x 2 letters, and the direct library call (no CLI sanitisation, disjoint state numbers) on three universes'},
   'outside': 'more than 3 states per operand or 5 in total, more than 3 letters, the selections that need a simulation relation (ExplicitFiniteAut::ComputeSimulation is not implemented: assert(false)), the equivalence variants (CLI: "Equivalence not implemented"), direct library calls on operands with overlapping state numbers, other heap address orders than the bump allocator\'s (the antichain work list is ordered by macro-state addresses)',
   'assumptions': ['start symbols (the nullary Timbuk rules that make a state a start state) carry no language meaning; every start state is given the same start symbol'],
   'harnesses': [
